@@ -176,6 +176,40 @@ pub assume_specification [crate::iri::IriBuf::into_bytes] (s: crate::iri::IriBuf
 pub assume_specification [crate::iri::IriRefBuf::into_bytes] (s: crate::iri::IriRefBuf) -> (r: Vec<u8>)
     ensures r@ == bytes_of(&s);
 
+// generated as_str of the component types whose text is viewed as a percent-encoded string (C19). TRUSTED.
+pub assume_specification [crate::uri::Host::as_str] (s: &crate::uri::Host) -> (r: &str)
+    ensures bytes_of(r) == bytes_of(s);
+pub assume_specification [crate::uri::UserInfo::as_str] (s: &crate::uri::UserInfo) -> (r: &str)
+    ensures bytes_of(r) == bytes_of(s);
+pub assume_specification [crate::uri::Query::as_str] (s: &crate::uri::Query) -> (r: &str)
+    ensures bytes_of(r) == bytes_of(s);
+pub assume_specification [crate::uri::Fragment::as_str] (s: &crate::uri::Fragment) -> (r: &str)
+    ensures bytes_of(r) == bytes_of(s);
+pub assume_specification [crate::iri::Host::as_str] (s: &crate::iri::Host) -> (r: &str)
+    ensures bytes_of(r) == bytes_of(s);
+pub assume_specification [crate::iri::UserInfo::as_str] (s: &crate::iri::UserInfo) -> (r: &str)
+    ensures bytes_of(r) == bytes_of(s);
+pub assume_specification [crate::iri::Query::as_str] (s: &crate::iri::Query) -> (r: &str)
+    ensures bytes_of(r) == bytes_of(s);
+pub assume_specification [crate::iri::Fragment::as_str] (s: &crate::iri::Fragment) -> (r: &str)
+    ensures bytes_of(r) == bytes_of(s);
+
+// owned checked constructors of the IRI family (generated) and the std UTF-8 step of from_vec. TRUSTED.
+pub assume_specification [crate::iri::IriBuf::new] (input: String) -> (r: Result<crate::iri::IriBuf, crate::iri::InvalidIri<String>>)
+    ensures r is Ok <==> lang_iri(bytes_of(&input)), match r { Ok(u) => bytes_of(&u) == bytes_of(&input), Err(e) => bytes_of(&e.0) == bytes_of(&input) };
+pub assume_specification [crate::iri::IriRefBuf::new] (input: String) -> (r: Result<crate::iri::IriRefBuf, crate::iri::InvalidIriRef<String>>)
+    ensures r is Ok <==> lang_iriref(bytes_of(&input)), match r { Ok(u) => bytes_of(&u) == bytes_of(&input), Err(e) => bytes_of(&e.0) == bytes_of(&input) };
+#[verifier::external_type_specification]
+#[verifier::external_body]
+pub struct ExFromUtf8Error(std::string::FromUtf8Error);
+pub uninterp spec fn fue_bytes(e: &std::string::FromUtf8Error) -> Seq<u8>;
+pub assume_specification [std::string::String::from_utf8] (v: Vec<u8>) -> (r: Result<String, std::string::FromUtf8Error>)
+    ensures r is Ok <==> utf8_ok(v@), match r { Ok(s) => bytes_of(&s) == v@, Err(e) => fue_bytes(&e) == v@ };
+pub assume_specification [std::string::FromUtf8Error::into_bytes] (e: std::string::FromUtf8Error) -> (r: Vec<u8>)
+    ensures r@ == fue_bytes(&e);
+pub assume_specification [std::string::String::into_bytes] (s: String) -> (r: Vec<u8>)
+    ensures r@ == bytes_of(&s);
+
 // std: unchecked UTF-8 reinterpretation. TRUSTED (std documentation: the bytes must be valid UTF-8)
 pub assume_specification [std::str::from_utf8_unchecked] (b: &[u8]) -> (r: &str)
     requires utf8_ok(b@),
